@@ -1,0 +1,11 @@
+//go:build !verif
+
+package dnsserver
+
+import "context"
+
+// verifYield is a no-op unless built with the verif tag (verification hooks).
+func verifYield(_ context.Context, _ string) {}
+
+// verifYieldReload is the Reload-side no-op yield point.
+func verifYieldReload(_ string) {}
